@@ -26,6 +26,23 @@ PROPS = {
  'C01': {'runs': bridge('C01'), 'monitor_props': ['C01'], 'rule': BRIDGE_RULE, 'assumptions': SYMBOLIC},
  'C02': {'runs': bridge('C02'), 'monitor_props': ['C02'], 'rule': BRIDGE_RULE, 'assumptions': SYMBOLIC,
          'partial': 'cross-context binding of sign-docs (injectivity of the concatenation up to a hash collision) is argued in DESIGN.md, not yet a Coq theorem'},
+ 'C07': {'runs': runs([{'family': 'replicas', 'bin': 'ah', 'n': 40, 'shards': 2}], [{'family': 'replicas', 'bin': 'ah', 'n': 800, 'shards': 8}]),
+         'monitor_props': ['C07'],
+         'rule': 'block histories of 7 blocks (validator creation, lock request lists over 1..4 validators with unknown validators / tokens making the block message fail part-way, unlocks up to everything held, gas revenue) executed on three instances of the real application behind ABCI: A proposes, B and C check and finalise the same proposal, C is stopped between FinalizeBlock and Commit at scripted blocks, reloads from disk and finalises again; compared: app hash, per-tx codes and gas, the set of validator updates, the engine calls of the finalisation; distinct = blocks executed',
+         'assumptions': ['Go randomises map iteration per loop, so map-order dependence surfaces as a replica difference with probability growing with the number of runs (the proof obligation C07_sites_covered does not depend on that luck)',
+                         'the nondeterminism-site list (Gen/Sites.v) is syntactic: map-typed locals / fields / parameters / results declared in the same package, go statements and errgroup.Go, select, time.Now/After/Since/Sleep, imported rand packages, sync.Pool'],
+         'partial': 'the model-level statement is per site (order-insensitivity of the one remaining map-ordered loop, first-seen order of Lock); store flushing in sorted order is cosmos-sdk (trusted dependency) and is covered by the replica comparison only'},
+ 'C08': {'runs': runs([{'family': 'goatblock', 'bin': 'ah', 'n': 200, 'shards': 2}, {'family': 'goatblock', 'bin': 'ah', 'n': 40, 'shards': 1, 'race': True, 'tag': 'race', 'seed_off': 7}],
+                      [{'family': 'goatblock', 'bin': 'ah', 'n': 3000, 'shards': 8}, {'family': 'goatblock', 'bin': 'ah', 'n': 400, 'shards': 2, 'race': True, 'tag': 'race', 'seed_off': 7}]),
+         'monitor_props': ['C08'],
+         'rule': 'on the real application behind ABCI: an honest proposal built by PrepareProposal on a well-behaved fake engine (mempool with admissible / foreign / stale transactions, due system transactions) and one mutation of it per case: payload fields (parent, number, beacon root, fee recipient, timestamp ahead, extra data, dropped / duplicated / reordered system transactions, request list shapes, blob gas) and structure (other proposer, foreign signer, second block message, block message not first, two messages in the first tx, 17 transactions, empty proposal); ProcessProposal verdict and the FinalizeBlock result of the block message are compared with the model; the same family under the Go race detector; distinct = distinct (mutation, verdict)',
+         'assumptions': ['the payload facts (child of head, beacon root, ...) are computed by the harness from the proposal and the committed state and handed to the model as booleans; the model is the decision logic over them',
+                         'the goroutine footprints (Gen/Footprint.v) are syntactic: selector reads/writes on the shared msg/payload inside each closure and inside the x/goat/types callees that receive the payload, assignments to captured variables']},
+ 'C09': {'runs': runs([{'family': 'faults', 'bin': 'ah', 'n': 60, 'shards': 1}, {'family': 'goatblock', 'bin': 'ah', 'n': 100, 'shards': 1, 'tag': '1'}],
+                      [{'family': 'faults', 'bin': 'ah', 'n': 600, 'shards': 4}, {'family': 'goatblock', 'bin': 'ah', 'n': 2000, 'shards': 8, 'tag': '1'}]),
+         'monitor_props': ['C09'],
+         'rule': 'engine fault kinds {error, INVALID, SYNCING, ACCEPTED, missing payload id, timeout} x call sites {forkchoice while proposing, getPayload, newPayload while checking, newPayload and forkchoice at end of block} on the real application (state on disk): committed or not, head before/after, reopen from disk and retry compared with a fault-free run; plus the proposal mutations of C08 for the head-step relation; distinct = distinct (phase, fault kind)',
+         'assumptions': ['the fake engine is the only execution layer; timeouts are the 1.2 s / 2 s context deadlines of the keeper']},
  'C10': {'runs': runs([{'family': 'ante', 'bin': 'ah', 'n': 400, 'shards': 2}], [{'family': 'ante', 'bin': 'ah', 'n': 4000, 'shards': 8}]),
          'monitor_props': ['C10'],
          'rule': 'every message type in the application interface registry x {CheckTx, ReCheck, PrepareProposal, ProcessProposal, FinalizeBlock} x signer {relayer proposer, validator, other} x memo {empty, x} x timeout {0, h-1, h, h+1} x bad signature, plus all ordered pairs of message types in one tx, through the real app.New behind ABCI with a fake engine; distinct = distinct (variant, mode)',
